@@ -187,10 +187,10 @@ class C01(Prop):
                 tracked = ex.w.tracked_files(repo)
                 present = sorted(set(tracked) | set(st.setdefault("new_files", [])))
                 twin = None
-                if (not present) or (rng.random() < 0.12 and len(present) < 6) or \
-                        (hz.get("twins") and who != HUMAN and not st.get("twins_done") and rng.random() < 0.4):
-                    pool = [p for p in gen.PLAIN_NAMES + (gen.HAZARD_NAMES if hz.get("names") else [])
-                            if p not in present]
+                pool = [p for p in gen.PLAIN_NAMES + (gen.HAZARD_NAMES if hz.get("names") else [])
+                        if p not in present]
+                if (not present) or (pool and ((rng.random() < 0.12 and len(present) < 6) or
+                                               (hz.get("twins") and who != HUMAN and not st.get("twins_done") and rng.random() < 0.4))):
                     path = rng.choice(pool)
                     st["new_files"].append(path)
                     old = None
@@ -211,7 +211,8 @@ class C01(Prop):
                     kinds = list(gen.EDIT_KINDS) + (["wsnorm", "wsnorm"] if hz.get("uspace") and not gated else []) + \
                         (["move", "move"] if hz.get("moves") else [])
                 new, desc = gen.mutate(rng, ex, old, who, hz,
-                                       kinds=["insert"] if old is None else kinds)
+                                       kinds=["insert"] if old is None else kinds,
+                                       max_block=(rng.choice([4, 8, 10]) if hz.get("moves") else 4))
                 if len(split_lines(new)) > cfg["max_lines"]:
                     new, desc = gen.mutate(rng, ex, old, who, hz, kinds=["delete"], max_block=10)
                 op = {"op": "edit", "who": who, "files": {path: new}, "desc": desc,
